@@ -4,7 +4,7 @@
        SELECT ?v0 ... ?vn WHERE { OPTIONAL { $f0 PATH ?v0 } ... OPTIONAL { $fn PATH ?vn } }
    and read column i as the value set of focus i. By the SPARQL algebra the group is a chain of
    LeftJoins of patterns over pairwise disjoint variables, starting from the unit solution. *)
-From Coq Require Import List Arith Lia.
+From Coq Require Import List Arith Lia NArith.
 From Verif Require Import Base.SetList Base.Terms.
 Import ListNotations.
 
@@ -129,3 +129,81 @@ Proof.
   - rewrite (flat_map_const_length _ 1) by reflexivity. f_equal.
   - rewrite (flat_map_const_length _ (S (length s'))) by (intros r; simpl; rewrite map_length; reflexivity). f_equal.
 Qed.
+
+(* ---- the target query of sparql_mode (Shape.focus_nodes_sparql) ----
+   Kinds of targets with two or more values are put into a VALUES clause holding the PRODUCT of
+   their value lists (kinds with one value are bound directly); for every row the query has one
+   OPTIONAL per kind, and the focus nodes are the bound values of all columns over all rows. *)
+Fixpoint rows_product (ls:list (list term)) : list (list term) :=
+  match ls with
+  | [] => [[]]
+  | l :: rest => flat_map (fun x => map (fun tl => x :: tl) (rows_product rest)) l
+  end.
+
+(* sol k v : what the OPTIONAL of kind k returns when its variable is bound to v *)
+Definition target_focus (sol:nat -> term -> list term) (kinds:list (list term)) : list term :=
+  flat_map (fun row => flat_map (fun kv => sol (fst kv) (snd kv)) (combine (seq 0 (length row)) row)) (rows_product kinds).
+
+Lemma in_rows_product ls row : In row (rows_product ls) <-> Forall2 (fun x l => In x l) row ls.
+Proof.
+  revert row. induction ls as [|l rest IH]; intros row; cbn [rows_product].
+  - split; [intros [<-|[]]; constructor|intros H; inversion H; left; reflexivity].
+  - rewrite in_flat_map. split.
+    + intros (x & Hx & Hr). apply in_map_iff in Hr as (tl & <- & Htl). constructor; [exact Hx|apply IH; exact Htl].
+    + intros H. inversion H as [|x l' tl rest' Hx Htl]; subst. exists x. split; [exact Hx|]. apply in_map_iff. exists tl. split; [reflexivity|apply IH; exact Htl].
+Qed.
+
+Lemma combine_seq_nth {X} (row:list X) k v s : nth_error row k = Some v -> In (s + k, v) (combine (seq s (length row)) row).
+Proof.
+  revert k s. induction row as [|x row IH]; intros k s H; [destruct k; discriminate|].
+  destruct k as [|k]; cbn [length seq combine nth_error] in *.
+  - injection H as ->. left. f_equal. lia.
+  - right. replace (s + S k) with (S s + k) by lia. apply IH. exact H.
+Qed.
+Lemma in_combine_seq {X} (row:list X) s k v : In (k, v) (combine (seq s (length row)) row) -> exists i, k = s + i /\ nth_error row i = Some v.
+Proof.
+  revert s. induction row as [|x row IH]; intros s H; [contradiction|]. cbn [length seq combine] in H.
+  destruct H as [E|H]; [injection E as <- <-; exists 0; split; [lia|reflexivity]|].
+  destruct (IH (S s) H) as (i & -> & Hi). exists (S i). split; [lia|exact Hi].
+Qed.
+
+Lemma forall2_nth {X Y} (R:X -> Y -> Prop) l1 l2 : Forall2 R l1 l2 -> forall i x, nth_error l1 i = Some x -> exists y, nth_error l2 i = Some y /\ R x y.
+Proof.
+  induction 1 as [|a b l1 l2 Hab _ IH]; intros i x Hi; [destruct i; discriminate|].
+  destruct i as [|i]; cbn [nth_error] in *; [injection Hi as <-; exists b; auto|apply IH; exact Hi].
+Qed.
+
+Lemma exists_row (ls:list (list term)) : Forall (fun l => l <> []) ls -> forall k l v, nth_error ls k = Some l -> In v l ->
+  exists row, In row (rows_product ls) /\ nth_error row k = Some v.
+Proof.
+  induction 1 as [|l0 rest Hne Hrest IH]; intros k l v Hk Hv; [destruct k; discriminate|].
+  destruct k as [|k]; cbn [nth_error] in Hk.
+  - injection Hk as ->.
+    assert (Hr : exists tl, In tl (rows_product rest)).
+    { clear -Hrest. induction rest as [|l r IHr]; [exists []; left; reflexivity|]. inversion Hrest as [|? ? Hl Hrest']; subst.
+      destruct (IHr Hrest') as (tl & Htl). destruct l as [|x l]; [congruence|]. exists (x :: tl). cbn [rows_product flat_map].
+      apply in_or_app. left. apply in_map_iff. exists tl. auto. }
+    destruct Hr as (tl & Htl). exists (v :: tl). split; [|reflexivity]. cbn [rows_product]. apply in_flat_map. exists v. split; [exact Hv|].
+    apply in_map_iff. exists tl. auto.
+  - destruct (IH k l v Hk Hv) as (row & Hrow & Hn). destruct l0 as [|x l0]; [congruence|].
+    exists (x :: row). split; [|exact Hn]. cbn [rows_product]. apply in_flat_map. exists x. split; [left; reflexivity|]. apply in_map_iff. exists row. auto.
+Qed.
+
+(* every value of every kind is looked up, and nothing else: the focus nodes are exactly the union,
+   over the kinds k and their values v, of what kind k's pattern returns for v *)
+Theorem target_query_covers_all_values sol kinds x : Forall (fun l => l <> []) kinds ->
+  (In x (target_focus sol kinds) <-> exists k l v, nth_error kinds k = Some l /\ In v l /\ In x (sol k v)).
+Proof.
+  intros Hne. unfold target_focus. rewrite in_flat_map. split.
+  - intros (row & Hrow & Hx). apply in_flat_map in Hx as ([k v] & Hkv & Hx). cbn [fst snd] in Hx.
+    apply in_combine_seq in Hkv as (i & -> & Hi). apply in_rows_product in Hrow.
+    destruct (forall2_nth _ _ _ Hrow i v Hi) as (l & Hl & Hv). exists i, l, v. auto.
+  - intros (k & l & v & Hk & Hv & Hx). destruct (exists_row kinds Hne k l v Hk Hv) as (row & Hrow & Hn).
+    exists row. split; [exact Hrow|]. apply in_flat_map. exists (k, v). split; [apply (combine_seq_nth row k v 0 Hn)|exact Hx].
+Qed.
+
+(* rows built position-wise (zip) instead of as a product lose values when the lists differ in length *)
+Example zip_rows_lose_values :
+  let kinds := [[IRI 1%N; IRI 2%N]; [IRI 10%N; IRI 11%N; IRI 12%N]] in
+  ~ In [IRI 1%N; IRI 12%N] (map (fun p => [fst p; snd p]) (combine (nth 0 kinds []) (nth 1 kinds []))) /\ In [IRI 1%N; IRI 12%N] (rows_product kinds).
+Proof. cbn. split; [intros [H|[H|[]]]; discriminate|right; right; left; reflexivity]. Qed.
